@@ -311,6 +311,29 @@ def relational(recipe, results: Dict[str, dict]) -> List[dict]:
                     cross("log_is_log_real", "log-not-log-of-real", f"entry {i}: Log {G.jnum(l)} log(Real) {G.jnum(ex)}; "
                           f"Log Z={json.dumps(logr['z'])} Real Z={json.dumps(real['z'])}", "Log")
                     break
+            # gradients: for a scalar Z > 0, d log Z / d log w = (w / Z) dZ/dw  (entries with w = 0 or an infinite
+            # Real gradient are left out: the chain rule is 0 x inf there)
+            if (not isinstance(real["z"], list) and 0 < real["z"] < INF and real.get("grads") and logr.get("grads")
+                    and not recipe.get("weights_log")):
+                Z = real["z"]
+                done = False
+                for name, ws in recipe["weights"].items():
+                    gr, gl = real["grads"].get(name), logr["grads"].get(name)
+                    if gr is None or gl is None:
+                        continue
+                    for i, (w, a, b) in enumerate(zip(_flat(ws), _flat(gr), _flat(gl))):
+                        w = G.num(w)
+                        if w == 0 or w == INF or a != a or abs(a) == INF:
+                            continue
+                        ex = w * a / Z
+                        if num_differs(b, ex, 1e-6, 1e-9):
+                            cross("log_is_log_real", "log-gradient-not-chain-rule-of-real",
+                                  f"factor {name} entry {i}: Log gradient {G.jnum(b)}; (w/Z) x Real gradient = {G.jnum(ex)} "
+                                  f"(w={w}, dZ/dw={G.jnum(a)}, Z={Z})", "Log")
+                            done = True
+                            break
+                    if done:
+                        break
         elif logr["status"] != real["status"]:
             cross("log_is_log_real", "log-raises", f"Log baseline raised {logr['exc']}; Real Z={json.dumps(real['z'])}", "Log")
         if boo["status"] == "ok":
@@ -529,6 +552,8 @@ def in_scope(recipe) -> bool:
 def grammars(tier: str, rng) -> List[dict]:
     n_nonrec, n_rec = (28, 24) if tier == "quick" else (380, 260)
     out = list(C3.handwritten())
+    # rules that evaluate to nothing listed before / between productive ones (J_log pairs rules with posteriors)
+    out += [g for g in C3.handwritten_extra() if g["meta"]["family"].startswith("unproductive") and "patterned" not in g]
     seen = {G.canonical(g) for g in out}
     for src, n, pz in ((G.enum_nonrecursive(tier, rng), n_nonrec, C3.P_ZERO), (G.enum_recursive(tier, rng), n_rec, 0.08)):
         k = 0
